@@ -170,6 +170,18 @@ fn one_target<T: Elem>(ctx: &mut Ctx, t: Target<T>, partner: Routine<T>) {
             Vec::new()
         };
         let mut v = gen(&mut rng, true);
+        // the NaN class really contains NaNs: about one element in eight, and the scalar operand in a third of its cases
+        let mut a = a;
+        if T::FLOAT && !nightly_float_red && class == 4 {
+            for x in a.iter_mut() {
+                if rng.chance(1, 8) {
+                    *x = T::from_f64(f64::NAN);
+                }
+            }
+            if (rep / 5) % 3 == 1 {
+                v = T::from_f64(f64::NAN);
+            }
+        }
         // panic behaviour: integer division by zero somewhere
         if int_div && class == 3 && dims > 0 {
             if t.r.kind() == Kind::Map2 {
